@@ -199,7 +199,8 @@ def build(raw, sid, route='back', poison=None, observe=True):
         steps.append(ev_step(e))
         if e['op'] in ('extend', 'from_iter'):
             # what the user's iterator claims through size_hint(): nothing, exact, a lower bound, too generous upper bounds
-            steps[-1]['hint'] = [0, 1, 2, 3, n + 3, 2 * n + 2][(sum(map(ord, sid)) + len(steps)) % 6]
+            # (chosen from the behaviour itself, so that all layout / route / garbage variants of it use the same one)
+            steps[-1]['hint'] = [0, 1, 2, 3, n + 3, 2 * n + 2][int(core.sha(n, lay['size'], json.dumps(e['vals']), e['op']), 16) % 6]
     last = raw['evs'][-1]['op']
     alive = last not in ('drop_buf',) and not ('ctor' in tags and raw['evs'][-1]['unw']) and raw['evs'][0]['op'] != 'into_iter'
     if raw['evs'][0]['op'] in ('clone', 'clone_from') and not raw['evs'][0]['unw']:
